@@ -18,6 +18,9 @@ Model driver for C13 (text <-> number conversions).  One op per line; byte strin
   sul <hex>          detail::string_to_ulong                        -> "ok <value>" | "err"
   s2i i32|i64|u64 <hex>   detail::str_to_int<T>                     -> "<value>"
   out <int64>        OutputBlock::output_int                        -> text
+  seq <errno> <conv> <hex> [<conv> <hex> [<conv> <hex>]]   a SEQUENCE of conversions on one thread, errno preset by
+                     the harness: the model is a pure function of each argument -> "<outcome> | <outcome> | ..."
+                     conv = sid ver cs uid nch ncm s2i32 s2i64 s2u64 oi64 ou32 c clon clat tp ts topl
 -/
 import Osmium.Model.Conv
 import Driver.Common
@@ -67,8 +70,52 @@ structure St where
   leap : Bool := true
   range : Bool := true
 
+def ok1 {α : Type} [ToString α] : Except Err α → String
+  | .ok x => s!"ok {x}"
+  | .error _ => "err"
+
+def ok2 {α : Type} [ToString α] (s : List UInt8) : Except Err (α × List UInt8) → String
+  | .ok (x, rest) => s!"ok {x} {s.length - rest.length}"
+  | .error _ => "err"
+
+/-- one conversion of a `seq` line: a function of the argument only (and of the probed variant) -/
+def convOut (st : St) (v : Variant) (cv : String) (s : List UInt8) : String :=
+  match cv with
+  | "sid" => ok1 (stringToObjectId s)
+  | "ver" | "cs" | "uid" | "nch" | "ncm" => ok1 (stringToUlong s)
+  | "s2i32" => toString (strToInt 2147483647 s)
+  | "s2i64" => toString (strToInt int64Max s)
+  | "s2u64" => toString (strToInt 18446744073709551615 s)
+  | "oi64" => ok2 s (oplParseInt int64Min int64Max s)
+  | "ou32" => ok2 s (oplParseInt 0 4294967295 s)
+  | "c" =>
+    match parseCoord v s with
+    | .error _ => "err"
+    | .ok out => s!"ok {out.value} {s.length - out.rest.length}"
+  | "clon" | "clat" =>
+    match parseCoord v s with
+    | .error _ => "err"
+    | .ok out => if peek out.rest == 0 then s!"ok {out.value}" else "err"
+  | "tp" => ok2 s (parseTimestampV st.leap s)
+  | "ts" => ok1 (timestampOfStringV st.leap st.range s)
+  | "topl" => ok2 s (oplParseTimestampV st.leap st.range s)
+  | _ => "bad-conv"
+
+def seqOut (st : St) (v : Variant) : List String → Option (List String)
+  | [] => some []
+  | cv :: h :: rest =>
+    match unhex h, seqOut st v rest with
+    | some s, some r => some (convOut st v cv s :: r)
+    | _, _ => none
+  | _ => none
+
 def stepV (st : St) (v : Variant) (line : String) : Variant × String :=
   match words line with
+  | "seq" :: e :: rest =>
+    if !(["0", "ERANGE", "EINVAL", "EDOM"].contains e) || rest.isEmpty || rest.length > 6 then (v, "bad-op")
+    else match seqOut st v rest with
+      | some r => (v, " | ".intercalate r)
+      | none => (v, "bad-op")
   | ["variant", n] =>
     match n with
     | "old" => (Variant.old, "variant old")
